@@ -83,7 +83,7 @@ def check_stream(ctx, s, req, got, refs, w_eng, case, label):
 
 async def run_case(ctx, rng, index):
     st = ctx.stats
-    so = smodel.GenOpts(p_subscription=1.0, p_mutation=0.2, n_objects=(2, 4), p_gate=0.1)
+    so = smodel.GenOpts(p_subscription=1.0, p_mutation=0.2, n_objects=(2, 4), p_gate=0.1, p_schema_pass=0.3)
     s, b = await X.new_bundle(rng, so)
     try:
         for _ in range(DOCS_PER_SCHEMA):
